@@ -32,6 +32,10 @@ std::uint32_t yk_ctx_of_finish(std::uint32_t i);
 std::uint32_t yk_ctx_of_start(std::uint32_t i);   // context index of invocation / response: real-time order of operations
 void yk_stop(void);                            // end of the explored run (CBMC: assume(false); native: exit(0))                  // p is a block obtained through operator new and not yet deleted
 void yk_layers_reset(void);                      // restart the count of trie-layer descents (bound YK_MAX_LAYERS per real call)
+// intruder mode (two context switches): `fn` (the other thread's whole operation) runs inside ONE hook of the calling code,
+// at a site/visit chosen by the solver.  state: 0 not run, 1 running, 2 completed
+void yk_intruder(void (*fn)());
+std::uint32_t yk_intruder_state(void);
 void yk_assert_at(bool c, std::uint32_t line);   // ll2c turns this into __CPROVER_assert(c, "yk:<line>")
 void yk_reach_at(std::uint32_t line);            // ... into __CPROVER_assert(0, "reach:<line>"): the vacuity witness, MUST fail
 }
